@@ -1314,9 +1314,27 @@ func (t *tr) function() string {
 		// the guards in front of a function's effects: the longest prefix of its statements the translator understands; reaching its end
 		// is `pure ()` ("not refused")
 		done := false
-		start := len(f.decl.Body.List)
+		list := f.decl.Body.List
+		if loopBody[f.spec.Lean] {
+			// the body of the function's first top-level range loop, once, for an arbitrary element
+			list = nil
+			for _, st := range f.decl.Body.List {
+				if rs, ok := st.(*ast.RangeStmt); ok {
+					list = rs.Body.List
+					break
+				}
+			}
+			if list == nil {
+				panic(translErr{f.spec.Func + ": no range loop"})
+			}
+		}
+		tailLines := []string{"pure true"}
+		if rv, ok := windowResult[f.spec.Lean]; ok {
+			tailLines = []string{"pure " + ident(rv)}
+		}
+		start := len(list)
 		if f.spec.Until != "" {
-			for i, st := range f.decl.Body.List {
+			for i, st := range list {
 				if strings.Contains(t.text(st), f.spec.Until) {
 					start = i
 					break
@@ -1327,7 +1345,7 @@ func (t *tr) function() string {
 		if from, ok := windowFrom[f.spec.Lean]; ok {
 			// a window: the statements from the first one that contains `from` (what is computed before it is outside the definition)
 			first = -1
-			for i, st := range f.decl.Body.List {
+			for i, st := range list {
 				if strings.Contains(t.text(st), from) {
 					first = i
 					break
@@ -1340,7 +1358,7 @@ func (t *tr) function() string {
 		f.windowFirst = first
 		t.guardIf = nil
 		if guardIf[f.spec.Lean] {
-			is, ok := f.decl.Body.List[start%len(f.decl.Body.List)].(*ast.IfStmt)
+			is, ok := list[start%len(list)].(*ast.IfStmt)
 			if !ok || f.spec.Until == "" {
 				panic(translErr{f.spec.Func + ": guardIf needs Until to name an if statement"})
 			}
@@ -1361,7 +1379,7 @@ func (t *tr) function() string {
 				}()
 				f.free, f.freeT, f.freeK, f.freeN = nil, map[string]string{}, map[string]kind{}, map[string]string{}
 				f.alias, f.skipped, f.tmp, f.fieldSet = map[string]ast.Expr{}, nil, 0, map[string]string{}
-				lines := t.stmts(f.decl.Body.List[first:n], []string{"pure true"})
+				lines := t.stmts(list[first:n], tailLines)
 				body = append(pre, lines...)
 				f.prefixLen = n
 				done = true
@@ -1398,6 +1416,9 @@ func (t *tr) function() string {
 	}
 	if f.spec.Prefix {
 		rts = []string{"Bool"}
+		if _, ok := windowResult[f.spec.Lean]; ok {
+			rts = []string{"Int"}
+		}
 	}
 	rt := strings.Join(rts, " × ")
 	if len(rts) == 0 {
@@ -1415,6 +1436,8 @@ func (t *tr) function() string {
 	if f.spec.Prefix {
 		if f.windowFirst > 0 {
 			out = append(out, fmt.Sprintf("-- WINDOW: top-level statements %d to %d of %d (what is computed before the window is outside this definition)", f.windowFirst+1, f.prefixLen, len(f.decl.Body.List)))
+		} else if loopBody[f.spec.Lean] {
+			out = append(out, fmt.Sprintf("-- LOOP BODY: the first %d statements of the body of the function's first range loop, for an arbitrary element", f.prefixLen))
 		} else {
 			out = append(out, fmt.Sprintf("-- PREFIX: the first %d of %d top-level statements (the guards in front of the effects)", f.prefixLen, len(f.decl.Body.List)))
 		}
